@@ -154,4 +154,5 @@ class Cursor:
         pass
 
     def __iter__(self):
-        return iter(self._rows if self._rows is not None else [])
+        # Iterating consumes rows like fetchone() does.
+        return iter(self.fetchone, None)
